@@ -27,5 +27,7 @@ int main(void)
 	P("BBO_HEADER_VERSION", (uint32_t)QB_BLACKBOX_HEADER_VERSION);
 	P("BBO_HEADER_HASH", (uint32_t)QB_BLACKBOX_HEADER_HASH);
 	P("BBO_ENOENT", ENOENT);
+	/* qb_rb_chunk_read / _peek let -EIDRM from the notifier pass (coq/RbOwWaitModel.v) */
+	P("RBO_EIDRM", EIDRM);
 	return 0;
 }
